@@ -52,6 +52,9 @@ def run(tier):
     mc = []
     # (2) the design: implementation-shaped spec refines the abstract one for every ISN (incl. wrap)
     mc.append(vlib.model_check("common/MCSeqNum", "MCSeqNum_16.cfg", workers=2, timeout=120))
+    # the same window lemma at the code's modulus 2^32, symbolically (Apalache); never gates the check
+    apa = {"window_lemma_M_2^32": vlib.apalache_lemma("common/apa/SeqLemma.tla"),
+           "window_widened_to_2^31 (must be refuted)": vlib.apalache_lemma("common/apa/SeqLemmaBad.tla", expect_error=True)}
     mc.append(vlib.model_check("tcp/DataTrackerImpl", "DataTrackerImpl_q.cfg" if quick else "DataTrackerImpl_t.cfg",
                                timeout=1500))
     mc.append(vlib.model_check("tcp/DataTrackerImpl", "DataTrackerImpl_legacy_q.cfg" if quick else "DataTrackerImpl_legacy_t.cfg",
@@ -88,6 +91,7 @@ def run(tier):
                 "does not start where the previous one ended (reordered / overlapping / duplicate / stale); each "
                 "scenario is replayed on DataTracker, Flow (v4/v6 packets) and legacy TCPStream at ISNs incl. "
                 "2^32-k with the wrap inside the stream",
+        "apalache": apa,
         "model_checked": {"DataTrackerImpl": {"distinct": mc[1].distinct, "generated": mc[1].generated,
                                               "cfg": "M=16, all 16 ISNs, L=%d" % (5 if quick else 7)},
                           "DataTrackerImpl[legacy TCPStream]": {"distinct": mc[2].distinct, "generated": mc[2].generated},
